@@ -1,9 +1,138 @@
-"""Engine L driver. Filled in later."""
+"""Engine L driver: one subprocess per loom scenario, classification of the outcome."""
+import concurrent.futures as cf
+import json
+import os
+import subprocess
+import tempfile
+import time
+
+SITES = ["generator", "input_counter", "benched", "drop_output", "drop_input"]
+
+
+from common import Machinery
+
+
+def describe(sc):
+    if sc["kind"] == "pool":
+        return "pool history %s pb=%s" % ([(b["n"], b.get("panics", []), "ext" if b.get("extend") else "bc") for b in sc["history"]], sc.get("pb"))
+    if sc["kind"] == "loop":
+        c = sc["case"]
+        return "loop entry=%d shapes=%d->%d T=%d n=%s s=%s panic=%s pb=%s" % (
+            c["entry"], c["ishape"], c["oshape"], c["threads"], c["sample_count"], c["sample_size"], c["panic"], sc.get("pb"))
+    return json.dumps(sc)
+
+
+def signature(sc, klass):
+    sig = {"engine": "L", "class": klass, "kind": sc["kind"]}
+    if sc["kind"] == "loop":
+        p = sc["case"].get("panic")
+        sig["panic_site"] = SITES[p["site"]] if p else None
+        sig["panic_thread"] = None if not p else ("caller" if p["thread"] == 0 else "worker")
+    if sc["kind"] == "pool":
+        sig["panics"] = any(b.get("panics") for b in sc["history"])
+    return sig
+
+
+def run_one(sc, binpath, env, timeout):
+    side = tempfile.NamedTemporaryFile(prefix="loomside", suffix=".txt", delete=False)
+    side.close()
+    os.unlink(side.name)
+    t0 = time.time()
+    try:
+        p = subprocess.run([binpath, "--scenario", json.dumps(sc), "--side", side.name], env=env,
+                           stdout=subprocess.PIPE, stderr=subprocess.PIPE, text=True, timeout=timeout)
+    except subprocess.TimeoutExpired:
+        raise Machinery("loom scenario timed out after %ss (cap hit, no verdict): %s" % (timeout, describe(sc)))
+    wall = time.time() - t0
+    first = None
+    if os.path.exists(side.name):
+        first = open(side.name).read()
+        os.unlink(side.name)
+    result = None
+    for line in p.stdout.splitlines():
+        if line.startswith("RESULT "):
+            result = json.loads(line[7:])
+    if p.returncode == 0 and result is not None and first is None:
+        return {"ok": True, "result": result, "wall": wall}
+    if first is None:
+        raise Machinery("loom engine died without a recorded panic (rc=%s): %s\n%s" % (p.returncode, describe(sc), p.stderr[-1500:]))
+    msg = first.splitlines()[0]
+    iteration = first.splitlines()[1] if len(first.splitlines()) > 1 else ""
+    if msg.startswith("oracle:"):
+        _, prop, klass, text = msg.split(":", 3)
+        return {"ok": False, "prop": prop, "class": klass, "text": text, "iteration": iteration, "wall": wall}
+    if "deadlock; threads" in msg:
+        return {"ok": False, "prop": None, "class": "deadlock", "iteration": iteration, "wall": wall,
+                "text": "no runnable thread while some thread has not terminated (deadlock / lost wake-up / leaked worker): " + msg.split(" @")[0]}
+    if "Causality violation" in msg or "concurrent" in msg.lower() and "access" in msg.lower():
+        return {"ok": False, "prop": "C06", "class": "causality", "iteration": iteration, "wall": wall,
+                "text": "data written by a task call was read without a happens-before edge: " + msg.split(" @")[0]}
+    if "use-after-return" in msg:
+        return {"ok": False, "prop": "C06", "class": "use-after-return", "iteration": iteration, "wall": wall, "text": msg.split(" @")[0]}
+    if "process::abort called" in msg:
+        return {"ok": False, "prop": None, "class": "abort", "iteration": iteration, "wall": wall,
+                "text": "a pool worker reached its abort guard: " + msg.split(" @")[0]}
+    raise Machinery("unrecognised loom failure for %s:\n%s\n%s" % (describe(sc), first, p.stderr[-1500:]))
 
 
 def run(job, tier, seed, binpath, env, ncpu):
-    raise RuntimeError("engine L not built yet")
+    """job: {'engine':'L','prop':..,'scenarios':[...], 'timeout':s}. Returns one result dict."""
+    scenarios = job["scenarios"]
+    timeout = job.get("timeout", 900)
+    prop = job["prop"]
+    res = {"name": "loom-" + prop, "states": 0, "transitions": 0, "traces_validated_against_impl": 0, "evaluations": 0,
+           "excluded": 0, "distinct_outcomes": 0, "exhaustive": True, "samples": [], "violations": [],
+           "bounds": {"scenarios": []}, "wall_s": 0.0, "_engine": {"engine": "L"}}
+    t0 = time.time()
+    with cf.ThreadPoolExecutor(max_workers=ncpu) as ex:
+        futs = {ex.submit(run_one, dict(sc, prop=prop) if sc["kind"] in ("pool", "loop") else sc, binpath, env, timeout): sc for sc in scenarios}
+        for fut in cf.as_completed(futs):
+            sc = futs[fut]
+            out = fut.result()
+            if out["ok"]:
+                r = out["result"]
+                res["states"] += r["iterations"]
+                res["evaluations"] += r["iterations"]
+                res["traces_validated_against_impl"] += r["iterations"]
+                res["transitions"] += max(r["transitions"], r["iterations"])
+                res["distinct_outcomes"] += r["distinct_outcomes"]
+                res["bounds"]["scenarios"].append({"scenario": describe(sc), "iterations": r["iterations"],
+                                                   "preemption_bound": r["preemption_bound"],
+                                                   "complete": "all interleavings" if r["preemption_bound"] is None else "all interleavings with <= %d preemptions" % r["preemption_bound"],
+                                                   "distinct_outcomes": r["distinct_outcomes"], "wall_s": round(out["wall"], 2)})
+                if len(res["samples"]) < 3 and r.get("sample"):
+                    res["samples"].append({"scenario": describe(sc), "first_execution": r["sample"]})
+                if r.get("shim"):
+                    res["samples"].append({"shim_outcomes": r["shim"]})
+            else:
+                vprop = out["prop"] or prop
+                if vprop != prop and not (prop == "C07" and out["class"] in ("deadlock", "abort")):
+                    # another property's oracle fired inside this job: not this check's verdict
+                    if not (out["prop"] is None):
+                        continue
+                res["violations"].append({
+                    "sig": signature(sc, out["class"]),
+                    "text": "%s [%s, %s]" % (out["text"], describe(sc), out["iteration"]),
+                    "case": sc,
+                })
+    res["bounds"]["scenarios"].sort(key=lambda s: s["scenario"])
+    if not res["samples"]:
+        res["samples"] = [{"scenario": describe(scenarios[0])}] if scenarios else []
+    res["wall_s"] = time.time() - t0
+    if res["states"] == 0 and not res["violations"]:
+        res["states"] = 0
+    return [res]
 
 
 def replay(body, binpath, env):
-    raise RuntimeError("engine L not built yet")
+    sc = body["case"]
+    obs = []
+    for _ in range(2):
+        out = run_one(sc, binpath, env, 3600)
+        obs.append(json.dumps({k: out.get(k) for k in ("ok", "prop", "class", "text", "iteration")}, sort_keys=True))
+    if obs[0] != obs[1]:
+        raise Machinery("loom replay is not deterministic:\n%s\n%s" % (obs[0], obs[1]))
+    out = json.loads(obs[0])
+    if out["ok"]:
+        return 0, []
+    return 1, [{"sig": signature(sc, out["class"]), "text": out["text"] + " [" + out["iteration"] + "]", "case": sc}]
